@@ -14,7 +14,8 @@ zlib (de)compression and UTF-8 decoding (functions that succeed or fail).
 Import-free, executable.  The model says what the code DOES today (after /repo commit f721ca9,
 which turned the `IndexError` on a priority-last line into a `ValueError`; the pre-fix parser is
 kept as `parsePartsOld`; 96f18c4: columns split at runs of whitespace, old splitter kept in `parseLineSp`;
-2626e70: header fields whitespace-collapsed, old header kept as `headerTextOld`).
+2626e70: header fields whitespace-collapsed, old header kept as `headerTextOld`; df39b19: `_getPayload` keeps the
+complete lines of a stream that ends early and the decodable lines of a partly undecodable text, old version `getPayloadOld`).
 -/
 namespace Inventory
 
@@ -284,8 +285,41 @@ def strippedPayload (data : Bytes) : Bytes :=
   | some p => p
   | none => data
 
-/-- `_getPayload`: returns the clear text ('' after a logged failure) -/
-def getPayload (unzip : Bytes → Option Bytes) (decode : Bytes → Option Str) (base : Str) (data : Bytes) :
+/-- what `zlib.decompressobj().decompress(payload)` does: raises `zlib.error` (bad header, invalid
+data, failed Adler-32 check), or returns what it inflated together with `eof` (false: the stream
+ends before its end marker — an interrupted download; what came out is a correct prefix) -/
+inductive Inflate
+  | rejected
+  | done (out : Bytes) (eof : Bool)
+  deriving DecidableEq, Repr
+
+/-- `b[: b.rfind(b'\n') + 1]`: everything through the last newline ('' when there is none) -/
+def cutLastLine (b : Bytes) : Bytes :=
+  (b.reverse.dropWhile (· ≠ 10)).reverse
+
+/-- `b.split(b'\n')` -/
+def splitNL (b : Bytes) : List Bytes := b.splitOn 10
+
+/-- `'\n'.join(lines)` -/
+def joinNL (ls : List Str) : Str := ['\n'].intercalate ls
+
+/-- `_getPayload` (after /repo commit df39b19): the clear text and what was logged.
+A rejected stream yields nothing; a stream that ends early is reported and its complete lines are
+used; if the text is not UTF-8 as a whole that is reported and the lines that decode are kept. -/
+def getPayload (inflate : Bytes → Inflate) (decode : Bytes → Option Str) (base : Str) (data : Bytes) :
+    List LogMsg × Str :=
+  match inflate (strippedPayload data) with
+  | .rejected => ([.uncompress base], [])
+  | .done out eof =>
+    let log1 : List LogMsg := if eof then [] else [.uncompress base]
+    let out' := if eof then out else cutLastLine out
+    match decode out' with
+    | some text => (log1, text)
+    | none => (log1 ++ [.decode base], joinNL ((splitNL out').filterMap decode))
+
+/-- PRE-df39b19 `_getPayload`: `zlib.decompress` and a strict decode of the whole payload, each
+all-or-nothing (historical) -/
+def getPayloadOld (unzip : Bytes → Option Bytes) (decode : Bytes → Option Str) (base : Str) (data : Bytes) :
     List LogMsg × Str :=
   match unzip (strippedPayload data) with
   | none => ([.uncompress base], [])
@@ -293,6 +327,39 @@ def getPayload (unzip : Bytes → Option Bytes) (decode : Bytes → Option Str) 
     match decode raw with
     | none => ([.decode base], [])
     | some text => ([], text)
+
+/-- strict UTF-8 decoding (`bytes.decode('utf-8')`): `none` = UnicodeDecodeError.  Rejects
+continuation bytes out of place, overlong forms, surrogates, values above U+10FFFF and cut
+sequences, like CPython. -/
+def utf8Decode : Bytes → Option Str
+  | [] => some []
+  | b0 :: rest =>
+    let cont (b : Nat) : Bool := 0x80 ≤ b && b ≤ 0xBF
+    if b0 < 0x80 then (utf8Decode rest).map (Char.ofNat b0 :: ·)
+    else if 0xC2 ≤ b0 && b0 ≤ 0xDF then
+      match rest with
+      | b1 :: r => if cont b1 then (utf8Decode r).map (Char.ofNat ((b0 - 0xC0) * 64 + (b1 - 0x80)) :: ·) else none
+      | _ => none
+    else if 0xE0 ≤ b0 && b0 ≤ 0xEF then
+      match rest with
+      | b1 :: b2 :: r =>
+        let lo := if b0 = 0xE0 then 0xA0 else 0x80
+        let hi := if b0 = 0xED then 0x9F else 0xBF
+        if lo ≤ b1 && b1 ≤ hi && cont b2 then
+          (utf8Decode r).map (Char.ofNat ((b0 - 0xE0) * 4096 + (b1 - 0x80) * 64 + (b2 - 0x80)) :: ·)
+        else none
+      | _ => none
+    else if 0xF0 ≤ b0 && b0 ≤ 0xF4 then
+      match rest with
+      | b1 :: b2 :: b3 :: r =>
+        let lo := if b0 = 0xF0 then 0x90 else 0x80
+        let hi := if b0 = 0xF4 then 0x8F else 0xBF
+        if lo ≤ b1 && b1 ≤ hi && cont b2 && cont b3 then
+          (utf8Decode r).map
+            (Char.ofNat ((b0 - 0xF0) * 262144 + (b1 - 0x80) * 4096 + (b2 - 0x80) * 64 + (b3 - 0x80)) :: ·)
+        else none
+      | _ => none
+    else none
 
 /-- `url.rsplit('/', 1)`: `none` when there is no '/', else the part before the last '/' -/
 def rsplitSlash (url : Str) : Option Str :=
@@ -307,7 +374,7 @@ structure State where
 
 /-- `SphinxInventory.update(cache, url)` with `data = cache.get(url)`.  When `_parseInventory`
 raises, `_links` is unchanged and the exception reaches the caller (second component). -/
-def update (unzip : Bytes → Option Bytes) (decode : Bytes → Option Str) (toInt : Str → Option Int)
+def update (unzip : Bytes → Inflate) (decode : Bytes → Option Str) (toInt : Str → Option Int)
     (st : State) (url : Str) (data : Option Bytes) : State × Outcome Unit :=
   match rsplitSlash url with
   | none => ({ st with log := st.log ++ [.noBaseUrl url] }, .ok ())
@@ -337,7 +404,7 @@ def getLink (links : Dict) (name : Str) : Option Str :=
 /-- a call on one `SphinxInventory`: `update(cache, url)` (with what the cache, zlib and the
 decoder do for it) or `getLink(name)` -/
 inductive Step
-  | upd (unzip : Bytes → Option Bytes) (decode : Bytes → Option Str) (url : Str) (data : Option Bytes)
+  | upd (unzip : Bytes → Inflate) (decode : Bytes → Option Str) (url : Str) (data : Option Bytes)
   | ask (name : Str)
 
 def Step.isUpd : Step → Bool
@@ -619,7 +686,7 @@ def cacheGet : SessionResult → Outcome (Option Bytes)
 structure Fetch where
   url : Str
   session : SessionResult
-  unzip : Bytes → Option Bytes
+  unzip : Bytes → Inflate
   decode : Bytes → Option Str
 
 /-- `System.fetchIntersphinxInventories(cache)`: `for url in options.intersphinx: update(cache, url)` -/
